@@ -24,6 +24,8 @@ Inductive stmt :=
 | If (fs : list field) (a b : stmt)      (* condition reads fs *)
 | Loop (fs : list field) (body : stmt)   (* for / while: the iterator / condition reads fs *)
 | Call (body : stmt)                     (* inlined helper method: a return inside ends the helper only *)
+| CallChk (body onfail : stmt)           (* r = self.helper(..) / super().check(..);  if not r: <onfail>
+                                            the helper's result is tested: onfail runs exactly when it is falsy *)
 | Ret (may_succeed : bool) (fs : list field)
       (* return <expr reading fs>; may_succeed = false when the returned value is certainly falsy
          (`return check_result.fail(..)`, `return None`, `return False`) *)
@@ -82,6 +84,13 @@ Fixpoint exec (orc : oracle) (fuel : nat) (p : stmt) (s : state) (tr : trace) : 
     | Call body =>
         match exec orc n body s tr with
         | (Returned _, s', tr') => (Normal, s', tr')
+        | r => r
+        end
+    | CallChk body onfail =>
+        match exec orc n body s tr with
+        | (Returned true, s', tr') => (Normal, s', tr')
+        | (Returned false, s', tr') => exec orc n onfail s' tr'
+        | (Normal, s', tr') => exec orc n onfail s' tr'      (* fell off the end: returns None *)
         | r => r
         end
     | Ret may fs =>
@@ -168,6 +177,19 @@ Fixpoint ana (p : stmt) (D : fset) : option flow :=
       | Some rb => Some {| norm := meet (norm rb) (ret_any rb); ret_ok := None; ret_any := None |}
       | None => None
       end
+  | CallChk body onfail =>
+      match ana body D with
+      | None => None
+      | Some rb =>
+          match meet (norm rb) (ret_any rb) with
+          | None => Some {| norm := None; ret_ok := None; ret_any := None |}   (* the helper only raises *)
+          | Some Df =>
+              match ana onfail Df with
+              | None => None
+              | Some rf => Some {| norm := meet (ret_ok rb) (norm rf); ret_ok := ret_ok rf; ret_any := ret_any rf |}
+              end
+          end
+      end
   | Ret may fs =>
       if subset fs D then Some {| norm := None; ret_ok := if may then Some D else None; ret_any := Some D |}
       else None
@@ -178,7 +200,7 @@ Fixpoint ana (p : stmt) (D : fset) : option flow :=
 Fixpoint writes (p : stmt) : fset :=
   match p with
   | Skip | Read _ | Ret _ _ | Abort => []
-  | Seq a b | If _ a b => (writes a ++ writes b)%list
+  | Seq a b | If _ a b | CallChk a b => (writes a ++ writes b)%list
   | Write f _ => [f]
   | Loop _ b | Call b => writes b
   end.
